@@ -30,8 +30,29 @@ Definition extract_row_ok (row : option string * list proj * option (list string
 Lemma extract_table_ok : forallb extract_row_ok extract_rows = true.
 Proof. vm_compute. reflexivity. Qed.
 
-(* WHERE splitting *)
-Definition filter_row_ok (row : option wexpr * list string) : bool :=
-  let '(w, res) := row in strs_eqb (match w with Some t => extract_filters t | None => [] end) res.
+(* WHERE splitting.  Before it is split, an unqualified column of the WHERE clause is attributed to the single FROM table when that table is a registered model
+   (not the virtual table `metrics`): _extract_filters passes the clause through _qualify_unaliased_columns(where, table) exactly then.  In the table the scripted
+   qualification marks every atom it touched as <table>:<atom>. *)
+Fixpoint wmap (f : string -> string) (w : wexpr) : wexpr :=
+  match w with WAtom t => WAtom (f t) | WAnd a b => WAnd (wmap f a) (wmap f b) | WOr a b => WOr (wmap f a) (wmap f b) end.
+Definition qualifies (g : rgraph) (inf : option string) : option string :=
+  match inf with
+  | Some t => if String.eqb t "metrics" then None else match find_rm (rg_models g) t with Some _ => Some t | None => None end
+  | None => None
+  end.
+Definition filters_of (g : rgraph) (inf : option string) (w : option wexpr) : list string :=
+  match w with
+  | None => []
+  | Some t => extract_filters (match qualifies g inf with Some m => wmap (fun a => m ++ ":" ++ a) t | None => t end)
+  end.
+Definition filter_row_ok (row : option string * option wexpr * list string) : bool :=
+  let '(inf, w, res) := row in strs_eqb (filters_of table_graph inf w) res.
 Lemma filter_table_ok : forallb filter_row_ok filter_rows = true.
 Proof. vm_compute. reflexivity. Qed.
+
+(* qualification does not change how the clause is split: the same number of filters, an OR still kept whole *)
+Lemma extract_filters_wmap_length : forall f w, length (extract_filters (wmap f w)) = length (extract_filters w).
+Proof.
+  induction w as [t|a IHa b IHb|a IHa b IHb]; cbn [wmap extract_filters]; [reflexivity| |reflexivity].
+  rewrite !app_length, IHa, IHb. reflexivity.
+Qed.
